@@ -309,10 +309,22 @@ func runC16(tr *Trace, sc *Script, rec *Recorder, scratch string) *Violation {
 	// blocks at or below its download cursor none of which it had stored goes unnoticed.
 	unnoticedFork := false
 	examined := uint64(0)
+	// the range whose logs the downloader holds and the last block of it whose header it has fetched: a replaced event
+	// block whose header it still has to fetch is noticed (hash mismatch, the range is asked again)
+	inflightTo, lastHdr := uint64(0), uint64(0)
 	w.OnRPC = func(label, method, desc string, mode int, result any) {
 		if label == "dl" && method == "FilterLogs" && mode == replyOK {
-			if r, ok := result.([2]uint64); ok && r[1] > examined {
-				examined = r[1]
+			if r, ok := result.([2]uint64); ok {
+				if r[1] > examined {
+					examined = r[1]
+				}
+				inflightTo, lastHdr = r[1], r[0]-1
+			}
+		}
+		if label == "dl" && method == "HeaderByNumber" && mode == replyOK {
+			var n uint64
+			if k, _ := fmt.Sscanf(desc, "%d", &n); k == 1 && n > lastHdr && n <= inflightTo {
+				lastHdr = n
 			}
 		}
 		// the tip the downloader was told about: it will treat everything up to it as examined
@@ -512,7 +524,16 @@ func runC16(tr *Trace, sc *Script, rec *Recorder, scratch string) *Violation {
 						any = true
 					}
 				}
-				if !any {
+				willNotice := false
+				for n := max(forkPoint, lastHdr+1); n <= inflightTo && n <= chain.HeadNum(); n++ {
+					if ev, ok := chain.Canon[n].Payload.(c16Ev); ok && !ev.None {
+						willNotice = true // its header is still to be fetched and will not match the logs
+					}
+				}
+				if !any && willNotice {
+					rec.Stats.Inc("forks_below_cursor_noticed_by_header_mismatch")
+				}
+				if !any && !willNotice {
 					unnoticedFork = true
 					rec.Stats.Inc("forks_below_cursor_without_stored_block")
 				}
